@@ -135,7 +135,7 @@ func c13PackageJSON(p *Prog, r *Report) {
 		rec(path, 0)
 		r.Check(okk, "D1-escaped-path", fmt.Sprintf("%s:%s#%d", fa.key, rf.Name, n), p.Pos(c.Pos()), "path = constants + gjson.Escape(name)", "a dependency name is spliced into a gjson/sjson path without gjson.Escape: names containing path syntax (\"socket.io\", wildcards) address a different key or none, and the update is silently lost")
 	})
-	r.Instances("D1-escaped-path", "gjson/sjson path uses in the package.json writer", n, 6)
+	r.Instances("D1-escaped-path", "gjson/sjson path uses in the package.json writer", n, 2)
 
 	// D3: per-update loop
 	var sets []ssa.Instruction
